@@ -98,6 +98,30 @@ fn real_main(args: &[String]) -> i32 {
             }
             0
         }
+        "legcorpus" => {
+            // vmon legcorpus <from> <to> [seed]   in-process corpus for interpreter/sanitizer legs
+            let from: u64 = args.get(2).and_then(|s| s.parse().ok()).unwrap_or(0);
+            let to: u64 = args.get(3).and_then(|s| s.parse().ok()).unwrap_or(40);
+            let seed: u64 = args.get(4).and_then(|s| s.parse().ok()).unwrap_or(1);
+            exec::install_panic_hook();
+            let mut bad = 0;
+            let mut evals = 0;
+            for idx in from..to {
+                let mut out = run::CaseOut::default();
+                mon::c01::leg_case(seed, idx, &mut out);
+                evals += out.evals;
+                for v in &out.violations {
+                    bad += 1;
+                    println!("LEG-VIOLATION idx={} sig={} what={}", idx, v.sig, v.what);
+                }
+            }
+            println!("LEG-SUMMARY cases={} evals={} violations={}", to - from, evals, bad);
+            if bad > 0 {
+                1
+            } else {
+                0
+            }
+        }
         "list" => {
             for m in registry() {
                 println!("{} {}", m.id, m.title);
